@@ -22,7 +22,8 @@ PROPERTY = 'C06'
 LEVEL = 'fault_enumeration'
 RULE = ('Corpus: Hypothesis-generated consistent trees (2..8 files, 1..4 '
         'Manifests in any format, sub-directories, file symlinks, hidden '
-        'names), optionally with one extra object (stray file, UNIX socket). '
+        'names), optionally with one extra object (stray file, UNIX socket, '
+        'self-referencing symlink) or one not yet referenced sub-Manifest. '
         'For each tree and each operation in {assert_directory_verifies '
         'raising, keep-going, `gemato verify`, verify_path of every listed '
         'file, update_entries_for_directory, `gemato update`}: a counting '
@@ -76,14 +77,27 @@ def case(draw):
                      and plain(e['path'])})
     dirs = sorted(p for p, v in vis.items() if v[0] == 'd' and plain(p))
     subm = [m['p'] for m in rendered if m['p'] != 'Manifest']
-    extra = draw(st.sampled_from([None, None, 'stray', 'socket',
-                                  'socket-listed']))
+    extra = draw(st.sampled_from([None, None, None, 'stray', 'socket',
+                                  'socket-listed', 'loop-link',
+                                  'unregistered']))
+    if extra == 'unregistered':
+        if len(lay['manifests']) > 1:
+            # a valid sub-Manifest that no MANIFEST entry references yet
+            lay['manifests'][-1]['registered'] = False
+            rendered = layout.render(lay)
+            subm = [m['p'] for m in rendered if m['p'] != 'Manifest'
+                    and m['p'] != lay['manifests'][-1]['p']]
+        else:
+            extra = None
     d = {'tree': spec, 'manifests': rendered, 'listed': listed,
          'dirs': dirs, 'subm': subm, 'extra': extra, 'tags': lay['tags'],
          'hashes': ['MD5', 'SHA1'],
          'rot': draw(st.integers(0, 9)),
          'ops': draw(st.lists(st.sampled_from(OPS), min_size=2, max_size=3,
                               unique=True))}
+    if extra == 'unregistered':
+        d['unregistered'] = lay['manifests'][-1]['p']
+        d['ops'] = ['update', 'cli-update']
     return d
 
 
@@ -97,6 +111,9 @@ def build(desc, root):
     if desc['extra'] == 'stray':
         with open(os.path.join(root, 'unlisted'), 'w') as f:
             f.write('stray')
+    elif desc['extra'] == 'loop-link':
+        # a stray object that cannot be inspected: stat gives ELOOP
+        os.symlink('selfloop', os.path.join(root, 'selfloop'))
     elif desc['extra'] in ('socket', 'socket-listed'):
         treegen.write_node(root, {'p': 'sock', 't': 's'})
         if desc['extra'] == 'socket-listed':
@@ -240,7 +257,9 @@ def run_case(desc):
             classes.append('extra:' + desc['extra'])
         # the tree must verify (or fail only because of the extra object)
         oc = gem.verify_lib(root)
-        if desc['extra'] is None:
+        if desc['extra'] == 'unregistered':
+            pass        # verification is not expected to pass; update ops
+        elif desc['extra'] is None:
             if oc.kind != 'return' or oc.value is not True:
                 return violation(
                     f'consistent corpus tree does not verify: '
@@ -255,7 +274,19 @@ def run_case(desc):
                 return violation(
                     f'{desc["extra"]} object reported as absent: {bad}',
                     sig='reported-absent:special-file', classes=classes)
-            return ok(nontrivial=True, classes=classes)
+            n_extra = 1
+            if desc['extra'] == 'stray':
+                # the stray file made permanently unreadable
+                for op in ('verify', 'verify-k', 'cli-verify'):
+                    v, fired = one_run(root, op, desc, classes,
+                                       err=errno.EACCES, only='unlisted')
+                    n_extra += 1
+                    if v is not None:
+                        return v
+            r = ok(nontrivial=True, classes=classes)
+            r.subcases = n_extra
+            r.subcases_nontrivial = n_extra
+            return r
         for op in desc['ops']:
             with shim.FaultInjector(root) as counter:
                 base_oc, _ = run_op(root, op, desc)
@@ -288,8 +319,11 @@ def run_case(desc):
             targets.append(desc['dirs'][0])
         if desc['subm']:
             targets.append(desc['subm'][0])
+        if desc.get('unregistered'):
+            targets = [desc['unregistered']]
         for t in targets:
-            for op in ('verify', 'verify-k', 'cli-verify', 'update'):
+            for op in (('update',) if desc.get('unregistered') else
+                       ('verify', 'verify-k', 'cli-verify', 'update')):
                 v, fired = one_run(root, op, desc, classes,
                                    err=errno.EACCES, only=t)
                 runs_here[0] += 1
